@@ -287,16 +287,15 @@ fn expr(p: &mut Parser) -> CompletedMarker {
 
 		if p.at(T![local]) {
 			p.bump();
+			// At least one bind is required, `;` may only follow a bind or its trailing comma
 			loop {
-				if p.at(T![;]) {
-					p.bump();
-					break;
-				}
 				bind(p);
 
 				if p.at(T![,]) {
 					p.bump();
-					continue;
+					if !p.at(T![;]) {
+						continue;
+					}
 				}
 				p.expect(T![;]);
 				break;
